@@ -424,10 +424,6 @@ class Machine(object):
                 take = False
             else:
                 raise PathDead()
-            if not (rt == z3.sat and rf == z3.sat):
-                # implied by the path condition: no decision recorded
-                c.solver.add(cond if take else z3.Not(cond))   # harmless (implied)
-                return take
         d['taken'].append(take)
         d['pos'] += 1
         cc = cond if take else z3.Not(cond)
@@ -499,7 +495,7 @@ class Machine(object):
             self._undo(jmark)
         if not outcomes:
             raise PathDead()
-        return self._merge(outcomes)
+        return self._merge(outcomes, fn.ret.bits if fn.ret.k == 'int' else 64)
 
     def _outer_conds(self):
         for d in self.dstack:
@@ -546,7 +542,7 @@ class Machine(object):
             return None
         return bv(x, 8)
 
-    def _merge(self, outcomes):
+    def _merge(self, outcomes, ret_bits=64):
         self.merges += 1
         if len(outcomes) == 1:
             conds, ret, delta = outcomes[0]
@@ -616,7 +612,7 @@ class Machine(object):
             if type(r) is not int:
                 bits = r.size()
         if bits is None:
-            bits = 64
+            bits = ret_bits
         out = bv(rets[-1], bits)
         for cnd, r in zip(reversed(cs[:-1]), reversed(rets[:-1])):
             out = z3.If(cnd, bv(r, bits), out)
@@ -766,7 +762,12 @@ class Machine(object):
                             self.store(p, t.size, v)
                     elif op == 'gep':
                         base = self.val(ins[3], None, regs)
-                        idxs = [self.val(iv, it, regs) for it, iv in ins[4]]
+                        idxs = []
+                        for it, iv in ins[4]:
+                            x = self.val(iv, it, regs)
+                            if type(x) is int and it.bits < 64 and x >> (it.bits - 1):
+                                x -= 1 << it.bits          # indices are signed
+                            idxs.append(x)
                         regs[ins[1]] = self.gep(ins[2], base, idxs)
                     elif op in _BIN:
                         t = ins[2]
